@@ -72,6 +72,15 @@ func Load(repoDir string, patterns []string) (*Engine, error) {
 		return nil
 	})
 	sort.Strings(e.SpecFiles)
+	// assumed contracts of library functions (trusted base), kept with the verifier
+	vd := os.Getenv("VERIF_DIR")
+	if vd == "" {
+		vd = "/verif"
+	}
+	if std, _ := filepath.Glob(filepath.Join(vd, "stdcontracts", "*.txt")); len(std) > 0 {
+		sort.Strings(std)
+		e.SpecFiles = append(e.SpecFiles, std...)
+	}
 	for _, sfp := range e.SpecFiles {
 		if err := e.Spec.ParseSpecFile(sfp); err != nil {
 			return nil, err
